@@ -121,6 +121,12 @@ func fixedMIDs() []midCase {
 		}
 		add("long-prefix", strings.Repeat("A", n)+"/../../../empty", strings.Repeat("A", n)+"/../../in/x", strings.Repeat("B", n-2)+"/B/../../../../x", strings.Repeat("C", n)+"/../../../mbox2/in/x")
 	}
+	// an ordinary identifier, a character at which some other notation ends its "identifier part" (Message-ID form id@host, a
+	// parameter, a fragment, a list), then the traversal: a validator that looks at the part before that character only
+	for _, c := range []string{"@", ":", ";", ",", "?", "#", "&", "=", "+", " ", "|", "%", "!", "~", "<", ">", "(", "\t", "$", "*"} {
+		add("split-char", "GOODMID00001"+c+"/../../../x", "A"+c+"b/../../../../decoy", "GOODMID00001"+c+"../../x", "VALID0000002"+c+"host/../../../mbox2/in/x",
+			"GOODMID00001"+c+"/../../in/x", "A"+c+"/../../../empty", "GOODMID00001"+c+"\\..\\..\\..\\x")
+	}
 	add("crlf", "x\r\nX-Evil: 1", "../../x\n", "../../x\r", "x\ny", "\r\n")
 	add("valid", "VALID0000002", "x", "AAAAAAAAAAA1", "abc123", "Z")
 	return l
